@@ -356,6 +356,14 @@ func runFSM(k []byte) (vs [][2]string) {
 func Replay(raw json.RawMessage) (string, bool) {
 	var c Case
 	_ = json.Unmarshal(raw, &c)
+	if c.Kind == "sibling" {
+		vs := runSiblings(c.I)
+		var sb strings.Builder
+		for _, v := range vs {
+			fmt.Fprintf(&sb, "%s: %s\n", v[0], v[1])
+		}
+		return sb.String(), len(vs) == 0
+	}
 	if c.Kind == "fsm" {
 		ks := keys(true)
 		vs := runFSM(ks[c.I])
